@@ -33,8 +33,8 @@ REGISTRY: dict[str, dict] = {
                      "runtime behaviour the model cannot exhibit"],
     ),
     "C10": dict(
-        modules=["C10"],
-        theorems=[T + "C10_frames_prefix", T + "C10_events_prefix", T + "C10_short_yields_nothing"],
+        modules=["C10", "C04Bytes"],
+        theorems=[T + "C10_frames_prefix", T + "C10_events_prefix", T + "C10_short_yields_nothing", T + "C10_complete_frames_delivered"],
         rule="IO: valid delimited reference-encoder streams cut at EVERY byte offset 0..len (streams ≤ 400 bytes are cut "
              "exhaustively), real parse_jelly_flat on the cut bytes vs the untruncated parse; model compared on every "
              "7th offset and all frame ends in quick, all offsets in thorough. Non-trivial = every stream.",
@@ -53,8 +53,8 @@ REGISTRY: dict[str, dict] = {
              "version 3 on read. Non-trivial = a configuration the writer accepts, or a gate/pair case.",
     ),
     "C04": dict(
-        modules=["C04"],
-        theorems=[T + "C04_decoder_refines_spec"],
+        modules=["C04", "C04Bytes"],
+        theorems=[T + "C04_decoder_refines_spec", T + "C04_bytes_delimited", T + "C04_bytes_single"],
         rule="PARSE: streams from the harness's independent reference encoder making arbitrary legal choices (random "
              "eviction victim, random IRI split point, explicit vs zero ids, early/redundant entries, repeats used or not, "
              "random frame cuts, empty frames, repeated options rows, metadata; physical types 1-3, versions 1-2, tables "
@@ -62,8 +62,8 @@ REGISTRY: dict[str, dict] = {
              "to_graph parsers vs that denotation; model parser vs real parser. Non-trivial = stream with ≥2 events.",
     ),
     "C16": dict(
-        modules=["C04"],
-        theorems=[T + "C16_rejects_at_offending_row", T + "C16_bad_header_rejected"],
+        modules=["C04", "C04Bytes"],
+        theorems=[T + "C16_rejects_at_offending_row", T + "C16_bad_header_rejected", T + "C16_frames"],
         rule="PARSE: valid reference-encoder streams with ONE injected violation per catalogued class at a random site "
              "(18 classes), confirmed invalid by the Lean referee (with the class it reports); real parse_jelly_flat must "
              "raise and what it yielded before must be the referee's denotation of the valid prefix. Non-trivial = every "
@@ -81,9 +81,9 @@ REGISTRY: dict[str, dict] = {
              "Non-trivial = a configuration the serializer accepts.",
     ),
     "C11": dict(
-        modules=["C06", "C10"],
-        theorems=[T + "C11_trace_faithful", T + "C11_pending_below_frame_size", T + "C11_no_lookahead",
-                  T + "C10_events_prefix", T + "C10_frames_prefix"],
+        modules=["C06", "C10", "C04Bytes"],
+        theorems=[T + "C11_trace_faithful", T + "C11_pending_below_frame_size", T + "C11_no_lookahead", T + "C11_parse_live",
+                  T + "C10_complete_frames_delivered", T + "C10_events_prefix", T + "C10_frames_prefix"],
         rule="SERSTEP: pull/yield traces of stream_frames(stream, instrumented generator) for Triple/Quad/GraphStream, frame "
              "sizes {1,2,3,5,7,250}, compared with the model's trace; oracle (i) pending < frame_size at pulls >= 2, (ii) one "
              "frame at most between pulls, (iii) statement rows handed out == statements pulled at every yield. Parse side: "
